@@ -8,11 +8,15 @@ Case kinds (all JSON, deterministic):
             break/continue, try/except/else/finally with raised exceptions, `with` over a context
             manager defined in the code, imports, `global` in nested functions, > 256 names to force
             EXTENDED_ARG) over random config names, eval symbols, builtins and shadowing between them;
-            the last statement may raise.
-* `fstr`    the same document with an f-string node (`!fstr fmt`, `f'fmt'`, `f"fmt"`).
+            statements joined by newlines or by `;` in every spacing, `;` inside string literals and
+            after one-line compound statements, last expressions spanning several lines; the last
+            statement may raise.
+* `fstr`    the same document with an f-string node (`!fstr fmt`, `f'fmt'`, `f"fmt"`), with quotes of
+            both kinds in the text and inside replacement fields, `;` and (explicit form) newlines.
 * `resolve` probe programs: every candidate name is read at module level / in a function / lambda /
             comprehension / nested try-with / class body; every source supplies a distinguishable value.
-* `hist`    2-4 builds in ONE process (same / different configs, symbols, code).
+* `hist`    2-4 builds in ONE process (same / different configs, symbols, code; the same multi-statement
+            persistent node re-built with other symbols and configs).
 
 Implementation side: every case runs in its own forked child of a worker subprocess (the worker
 imports the implementation once; a crash of the interpreter is the exit status of that child, so it
@@ -20,15 +24,17 @@ is attributed to the case).  The child computes the native reference first (the 
 itself: `exec` of all statements but the last, `eval` of the last one, in a plain dict holding config
 values, then symbols, builtins behind it; a text Python cannot parse is outside the quantifier), then
 `Config.build(text, filename=..., eval_ctx=EvalContext(eval_symbols=...))`.  Observed without touching
-the implementation's source: the texts handed to `compile` (module attribute `compile` of
-nodes/eval.py set to a recording wrapper), the names that reached `EvalGlobals.__missing__`
-(wrapper around the method), the eval-node modules in `sys.modules` after every build.
+the implementation's source: what is handed to `compile` (module attribute `compile` of
+nodes/eval.py set to a recording wrapper; syntax trees are recorded statement by statement through
+`ast.unparse`), the names that reached `EvalGlobals.__missing__` (wrapper around the method), the
+eval-node modules in `sys.modules` after every build.
 
 Oracle: equal canonical value, or EvalError whose `__cause__` has the class of the native exception;
 any abnormal exit status is a violation.  Correspondence with lean/AY/Model/Resolve.lean (driver op
-`c12`): `splitCode` vs the compiled texts, `multiLineL` vs publication of a module, `normFstr` vs the
-code of the f-string node, `resolve`/`Globals.lookup` vs the observed resolution of every name,
-`evalStep` folded over a history vs the values the real builds observed.
+`c12`): `splitStmts` over Python's statement list vs the compiled trees, `multiStmt`/`publishes` vs
+publication of a module, `normFstr` vs the code of the f-string node, `resolve`/`Globals.lookup` vs the
+observed resolution of every name, `evalStep` folded over a history vs the values the real builds
+observed.  The only recorded finding is D26 (`class-body-config-name`).
 """
 import os, sys, json, re, ast, hashlib, random, subprocess, signal, builtins as _bi
 
@@ -109,6 +115,7 @@ def _native(b):
         ns[name] = to_ref(val)
     syms = mk_syms(b['syms'])
     out = {}
+    ns['ayns'] = RefBunch({'cfg': RefBunch((k, v) for k, v in ns.items())})     # the injected name: this build's config
     before = dict(ns)
     try:
         for name, code in b.get('derived', []):
@@ -173,7 +180,13 @@ def worker_main():
     rec = {'compiles': [], 'missing': []}
     real_compile = compile
     def rec_compile(src, fn, mode, *a, **k):
-        rec['compiles'].append((src, mode, fn))
+        if isinstance(src, ast.Module):
+            seen = [ast.unparse(x) for x in src.body]
+        elif isinstance(src, ast.Expression):
+            seen = ast.unparse(src.body)
+        else:
+            seen = src
+        rec['compiles'].append((seen, mode, fn))
         return real_compile(src, fn, mode, *a, **k)
     evmod.compile = rec_compile     # module attribute shadows the builtin for nodes/eval.py only
     if hasattr(evmod, 'EvalGlobals'):       # absent in revisions that do not resolve names through a dict subclass
@@ -325,7 +338,7 @@ def module_key(b):
 
 NAMES = ['a', 'b', 'c', 'd', 'k', 'm', 'n', 'p', 'q', 's', 't', 'u', 'w', 'x', 'y', 'z']
 BFUNCS = ['len', 'abs', 'max', 'min', 'sum', 'sorted']
-WORDS = ['ab', 'cd', 'xyz', 'q', 'hello', 'w-1', 'A b', 'zz_9']
+WORDS = ['ab', 'cd', 'xyz', 'q', 'hello', 'w-1', 'A b', 'zz_9', 'p;q', 'u; v']
 
 class Gen:
     def __init__(self, rng):
@@ -727,6 +740,15 @@ class Gen:
         return (f'{name} = {self.int_e(1)}\ndef {f}(ga):\n    global {name}\n    def deep():\n        return {e}\n'
                 f'    {name} += deep()\n    return {name}\n{f}(1)\n{f}(2)')
 
+    def s_semi_compound(self):
+        """one-line compound statement whose body holds several `;`-separated statements"""
+        name = self.fresh(allow_shadow=False)
+        c, e1, e2 = self.bool_e(1), self.int_e(1), self.int_e(1)
+        self.forget(name); self.ints.append(name)
+        self.feats.add('semicolon:compound')
+        sp = self.r.choice([';', '; ', ' ; '])
+        return f'{name} = {e1}\nif {c}: {name} = {e2}{sp}{name} = {name} + 5'
+
     def s_class_cfg(self):
         """class body that reads names directly (LOAD_NAME with class locals)"""
         self.n += 1
@@ -750,7 +772,7 @@ class Gen:
             stmts += [f'zp{i} = {i + 1000}' for i in range(pad)]
             self.ints += [f'zp{r.randrange(pad)}' for _ in range(4)]
         makers = [self.s_assign, self.s_assign, self.s_aug, self.s_def, self.s_lambda, self.s_closure, self.s_if, self.s_for,
-                  self.s_while, self.s_try, self.s_with, self.s_import, self.s_global, self.s_class_cfg]
+                  self.s_while, self.s_try, self.s_with, self.s_import, self.s_global, self.s_class_cfg, self.s_semi_compound]
         for _ in range(nst):
             stmts.append(r.choice(makers)())
         if pad:
@@ -768,6 +790,9 @@ class Gen:
         if self.dicts and r.random() < 0.3:
             outs.append(r.choice(sorted(self.dicts)))
         final = '[' + ', '.join(outs) + ']'
+        if r.random() < 0.15:
+            self.feats.add('multiline-last-expression')
+            final = '[\n    ' + ',\n    '.join(outs) + '\n]'
         if error:
             self.feats.add('error:' + error)
             e = self.int_e(1)
@@ -788,21 +813,16 @@ class Gen:
         return stmts, final
 
 def simple(stmt):
-    return '\n' not in stmt and not re.match(r'\s*(if|for|while|try|with|def|class|import|from|@)\b', stmt)
+    return '\n' not in stmt and not re.match(r'\s*(if|for|while|try|with|def|class|@)\b', stmt)
 
 def layout(rng, stmts, final, mode):
-    """separators between consecutive pieces (stmts + [final])"""
+    """separators between consecutive pieces (stmts + [final]); `;` only joins simple statements (Python's rule)"""
     seps = []
     pieces = stmts + [final]
     for i in range(1, len(pieces)):
         sep = '\n'
-        prev, cur = pieces[i - 1], pieces[i]
-        last = i == len(pieces) - 1
-        if mode != 'nl' and simple(prev) and (simple(cur) or last) and rng.random() < 0.5:
-            if mode == 'semi':
-                sep = '; ' if last and rng.random() < 0.5 else ';'
-            elif mode == 'semisp':
-                sep = '; '
+        if mode == 'semi' and simple(pieces[i - 1]) and (simple(pieces[i]) or i == len(pieces) - 1) and rng.random() < 0.6:
+            sep = rng.choice([';', '; ', ' ; ', ';  '])
         seps.append(sep)
     return seps
 
@@ -820,95 +840,93 @@ def gen_prog(rng, tier, known=None, pad=0, error=None):
         nst = rng.randint(0, 6) if not pad else rng.randint(0, 2)
         stmts, final = g.program(nst, pad=pad, error=error)
         mode = 'nl'
-        if known == 'semicolon-textual-split':
-            var = rng.choice(['semisp', 'literal', 'compound'])
-            if var == 'semisp':
-                stmts = [f'sa = {g.int_e(1)}', f'sb = {g.int_e(1)}'] + stmts
-                final = '[sa, sb, ' + final[1:]
-                mode = 'semisp'
-            elif var == 'literal':
-                final = "['x;y', " + final[1:] if final.startswith('[') else final
-                if not final.startswith('['):
-                    stmts.append("sl = 'p;q'")
-            else:
-                stmts.append(f'sc = 0\nif {g.bool_e(1)}: sc = 1;sc = sc + 5')
-                final = '[sc, ' + final[1:] if final.startswith('[') else final
-            g.feats.add('semicolon:' + var)
-        elif rng.random() < 0.3:
+        if rng.random() < 0.4:
             mode = 'semi'
-            g.feats.add('semicolon:clean')
+        if known == 'class-body-config-name':
+            # the class body reads a name that is only a config entry (finding D26)
+            cfgints = [n for n, v in cfg if n in g.cfgonly and n not in g.defd and isinstance(v, int)]
+            if not cfgints:
+                continue
+            stmts = stmts + [f'class KB:\n    cv = {rng.choice(cfgints)} + 1']
+            final = '[KB.cv, ' + final[1:] if final.startswith('[') else 'KB.cv'
         seps = layout(rng, stmts, final, mode)
-        if known == 'semicolon-textual-split' and mode == 'semisp' and '; ' not in seps[:-1]:
-            seps[0] = '; '
+        if any(x != '\n' for x in seps):
+            g.feats.add('semicolon:separator')
         case = {'kind': 'prog', 'cfg': cfg, 'derived': derived, 'syms': syms, 'stmts': stmts, 'final': final, 'seps': seps,
                 'style': rng.choice(['block', 'dq']), 'filename': rng.choice([None, None, 'conf.yaml', '/tmp/some dir/x.yaml']),
                 'rpos': rng.randint(0, len(cfg) + len(derived)), 'feats': sorted(g.feats)}
         if known:
             case['known'] = known
         try:
-            compile('\n'.join(stmts), '<gen>', 'exec'); compile(final, '<gen>', 'eval')
+            ast.parse(code_text(case))
         except SyntaxError:
             continue
-        if known == 'class-body-config-name':
-            cfgints = [n for n, v in cfg if n in g.cfgonly and isinstance(v, int)]
-            if not cfgints:
-                continue
-            n = rng.choice(cfgints)
-            case['stmts'] = stmts + [f'class KB:\n    cv = {n} + 1']
-            case['final'] = '[KB.cv, ' + final[1:] if final.startswith('[') else 'KB.cv'
-            case['seps'] = layout(rng, case['stmts'], case['final'], 'nl')
         return case
     raise RuntimeError('generator failed to produce a compilable program')
 
 # ---- f-strings ---------------------------------------------------------------------------------
 
-def gen_fstr(rng, known=None):
-    g = Gen(rng)
-    cfg, syms = g.world()
-    form = rng.choice(['explicit', 'sq', 'dq'])
-    parts = []
-    q_other = {'sq': '"', 'dq': "'", 'explicit': '"'}[form]
-    for _ in range(rng.randint(1, 4)):
-        ch = rng.random()
-        if ch < 0.35:
-            parts.append(rng.choice(['abc', 'x = ', ' - ', 'A:B', '100%', '(z)', ' a#b ', 'q_', '{{lit}}']))
-            if parts[-1] == '{{lit}}': g.feats.add('fstr:escaped-brace')
+QUOTES = ["'", '"', "'''", '"""']
+
+def ref_literal(fmt):
+    """a Python literal with the format text `fmt`: any delimiter that is valid for it will do, the value does not
+    depend on the choice; tried in the opposite order of the implementation's"""
+    for q in reversed(QUOTES):
+        if q not in fmt and not fmt.endswith(q[0]) and ('\n' not in fmt or len(q) == 3):
+            return 'f' + q + fmt + q
+    return None
+
+def gen_fstr(rng):
+    for _ in range(20):
+        g = Gen(rng)
+        cfg, syms = g.world()
+        form = rng.choice(['explicit', 'explicit', 'sq', 'dq'])
+        own = {'sq': "'", 'dq': '"', 'explicit': None}[form]
+        parts = []
+        for _ in range(rng.randint(1, 4)):
+            ch = rng.random()
+            if ch < 0.35:
+                lits = ['abc', 'x = ', ' - ', 'A:B', '100%', '(z)', ' a#b ', 'q_', '{{lit}}', 'p;q', 'r; s']
+                if form == 'explicit':
+                    lits += ["it's", 'say "hi"', "'", '"', 'l1\nl2', "''' ", '"" ']
+                elif form == 'sq':
+                    lits += ['say "hi"']
+                else:
+                    lits += ["it's"]
+                parts.append(rng.choice(lits))
+                for mark, feat in (('{{', 'fstr:escaped-brace'), (';', 'fstr:semicolon'), ("'", 'fstr:quote-in-text'),
+                                   ('"', 'fstr:quote-in-text'), ('\n', 'fstr:newline')):
+                    if mark in parts[-1]:
+                        g.feats.add(feat)
+            else:
+                e = g.int_e(2) if rng.random() < 0.7 else g.str_e(2)
+                if any(c in e for c in "'\"{}\\;"):
+                    e = g.int_names()[0] if g.int_names() else '1'
+                suffix = rng.choice(['', '', '!r', ':>6', ':03d' if e.isidentifier() and e in g.ints else ''])
+                if g.dicts and rng.random() < 0.35:
+                    dn = rng.choice(sorted(g.dicts)); k = rng.choice(sorted(g.dicts[dn]))
+                    kq = rng.choice(["'", '"'])          # also the delimiter's own kind (valid since Python 3.12)
+                    e = f'{dn}[{kq}{k}{kq}]'; suffix = ''
+                    g.feats.add('fstr:quote-in-field' + (':same-as-delimiter' if kq == own else ''))
+                parts.append('{' + e + suffix + '}')
+                g.feats.add('fstr:field' + (':' + suffix if suffix else ''))
+        fmt = ''.join(parts).strip() or 'x'
+        if form != 'explicit':
+            fmt = fmt.replace(': ', ':')        # a YAML plain scalar cannot contain ': '
+        g.feats.add('fstr:' + form)
+        if form == 'explicit':
+            scalar, ref = fmt, ref_literal(fmt)
+            if ref is None or (len(fmt) >= 3 and fmt[0] == 'f' and fmt[1] in '\'"' and fmt[-1] == fmt[1]):
+                continue
         else:
-            e = g.int_e(2) if rng.random() < 0.7 else g.str_e(2)
-            if any(c in e for c in "'\"{}\\"):
-                e = g.int_names()[0] if g.int_names() else '1'
-            suffix = rng.choice(['', '', '!r', ':>6', ':03d' if e.isidentifier() and e in g.ints else ''])
-            if g.dicts and rng.random() < 0.25:
-                dn = rng.choice(sorted(g.dicts)); k = rng.choice(sorted(g.dicts[dn]))
-                e = f'{dn}[{q_other}{k}{q_other}]'; suffix = ''
-                g.feats.add('fstr:subscript-quote')
-            parts.append('{' + e + suffix + '}')
-            g.feats.add('fstr:field' + (':' + suffix if suffix else ''))
-    fmt = ''.join(parts).strip() or 'x'
-    if form != 'explicit':
-        fmt = fmt.replace(': ', ':')        # a YAML plain scalar cannot contain ': '
-    if known == 'semicolon-textual-split':
-        fmt = 'p;q ' + fmt
-    if known == 'fstr-explicit-quote-in-field':
-        form = 'explicit'
-        dn = next((n for n, v in cfg if isinstance(v, dict) and n in g.dicts), None)
-        if dn is None:
-            cfg.append(['dd', {'k': 3}]); dn = 'dd'; g.dicts['dd'] = {'k': 3}
-        fmt = fmt + " {" + dn + "['" + sorted(g.dicts[dn])[0] + "']}"
-    g.feats.add('fstr:' + form)
-    if form == 'explicit':
-        scalar = fmt
-        q = next(x for x in ["'", '"', "'''", '"""'] if x not in fmt)
-        ref = 'f' + q + fmt + q
-    else:
-        q = "'" if form == 'sq' else '"'
-        scalar = 'f' + q + fmt + q
-        ref = scalar
-    case = {'kind': 'fstr', 'cfg': cfg, 'derived': [], 'syms': syms, 'form': form, 'scalar': scalar, 'ref_lit': ref,
-            'filename': rng.choice([None, 'conf.yaml']), 'rpos': rng.randint(0, len(cfg)), 'feats': sorted(g.feats)}
-    if known:
-        case['known'] = known
-    return case
+            scalar = ref = 'f' + own + fmt + own
+        try:
+            ast.parse(ref, mode='eval')
+        except SyntaxError:
+            continue
+        return {'kind': 'fstr', 'cfg': cfg, 'derived': [], 'syms': syms, 'form': form, 'scalar': scalar, 'ref_lit': ref,
+                'filename': rng.choice([None, 'conf.yaml']), 'rpos': rng.randint(0, len(cfg)), 'feats': sorted(g.feats)}
+    raise RuntimeError('generator failed to produce an f-string')
 
 # ---- resolution probes -------------------------------------------------------------------------
 
@@ -961,37 +979,35 @@ HCODES = [
     (["y = 'def:y@' + str(bid)", '[gd(lambda: s), gd(lambda: a), gd(lambda: y), gd(lambda: len)]'], 'multi'),
     (["y = 'def:y@' + str(bid)", 'def hf():\n    return [s, a]', '[gd(hf), gd(lambda: y), a * 2]'], 'multi'),
     (['tot = 0', 'for i in [1, 2]:\n    tot += a * i', '[tot, gd(lambda: s)]'], 'multi'),
+    (['if a > 5:\n    z = 1', '[gd(lambda: z), a, gd(lambda: s)]'], 'multi'),          # a definition made on one branch only
+    (['y = gd(lambda: ayns.cfg.a)', '[y, a]'], 'multi'),                               # the escape hatch must be the current build's too
 ]
 
-def gen_hist(rng, known=None):
+def gen_hist(rng):
+    """2-4 builds in one process; with `reuse` most builds share one multi-statement persistent code while symbols
+    and configs change (the history that used to read the cached module back)"""
     nb = rng.randint(2, 4)
     builds = []
-    shared_syms = [['gd', {'fn': 'guard'}]] + ([['s', 'sym:s@all']] if rng.random() < 0.6 else [])
-    reuse = known is not None or rng.random() < 0.6
-    base_code = rng.choice(HCODES[1:]) if reuse else None
+    reuse = rng.random() < 0.65
+    base_code = rng.choice(HCODES[1:])
     for k in range(nb):
-        cfg = [['a', rng.choice([1, 2, 5, 10, 100])], ['bid', k]]
+        cfg = [['a', rng.choice([0, 1, 2, 5, 10, 100])], ['bid', k]]
         if rng.random() < 0.4:
             cfg.append(['s', f'cfg:s@{k}'])
-        if known == 'history-cached-namespace':
-            syms = [['gd', {'fn': 'guard'}]] + ([['s', f'sym:s@{k}']] if (k == 0 or rng.random() < 0.5) else [])
+        if rng.random() < 0.3:
+            cfg.append(['z', 7 + k])
+        syms = [['gd', {'fn': 'guard'}]] + ([['s', f'sym:s@{k}']] if rng.random() < 0.5 else [])
+        alt = 'base' if (reuse and rng.random() < 0.75) else rng.choice(['single', 'fstr', 'multi', 'uniq'])
+        if alt == 'base':
             stmts = list(base_code[0])
-        elif reuse:
-            syms = [list(x) for x in shared_syms]
-            if rng.random() < 0.75:
-                stmts = list(base_code[0])
-            else:
-                stmts = list(rng.choice(HCODES)[0])
+        elif alt == 'multi':
+            stmts = list(rng.choice(HCODES[1:])[0])
+        elif alt == 'uniq':
+            stmts = [f'uniq{k} = {k}'] + list(rng.choice(HCODES[1:])[0])
+        elif alt == 'single':
+            stmts = list(HCODES[0][0])
         else:
-            syms = [['gd', {'fn': 'guard'}]] + ([['s', f'sym:s@{k}']] if rng.random() < 0.5 else [])
-            # pairwise different multi-line codes, or single-line / f-string nodes
-            alt = rng.choice(['single', 'fstr', 'multi'])
-            if alt == 'multi':
-                stmts = [f'uniq{k} = {k}'] + list(rng.choice(HCODES[1:])[0])
-            elif alt == 'single':
-                stmts = list(HCODES[0][0])
-            else:
-                stmts = None
+            stmts = None
         if stmts is None:
             lit = "f'{gd(lambda:s)}|{a}|{bid}'"
             builds.append({'kind': 'fstr', 'cfg': cfg, 'derived': [], 'syms': syms, 'form': 'sq', 'scalar': lit, 'ref_lit': lit,
@@ -999,23 +1015,23 @@ def gen_hist(rng, known=None):
         else:
             builds.append({'kind': 'prog', 'cfg': cfg, 'derived': [], 'syms': syms, 'stmts': stmts[:-1], 'final': stmts[-1], 'seps': [],
                            'style': 'dq', 'filename': rng.choice([None, 'h.yaml']), 'rpos': rng.randint(0, len(cfg))})
-    case = {'kind': 'hist', 'builds': builds, 'feats': ['hist:' + ('reuse' if reuse else 'noreuse'), f'hist:builds={nb}']}
-    if known:
-        case['known'] = known
-    return case
-
-def gen_hist_stale_def(rng):
-    """a definition made only on one branch survives in the cached module (D11, second face)"""
-    code = ['if a > 5:\n    z = 1', '[gd(lambda: z), a]']
-    builds = []
-    for k, a in enumerate([10, 0]):
-        builds.append({'kind': 'prog', 'cfg': [['a', a], ['z', 7], ['bid', k]], 'derived': [], 'syms': [['gd', {'fn': 'guard'}]],
-                       'stmts': code[:-1], 'final': code[-1], 'seps': [], 'style': 'dq', 'filename': None, 'rpos': 3})
-    return {'kind': 'hist', 'builds': builds, 'feats': ['hist:reuse', 'hist:conditional-def'], 'known': 'history-cached-namespace'}
+    codes = [code_text(b) for b in builds if b['kind'] == 'prog' and b['stmts']]
+    shared = len(codes) != len(set(codes))
+    return {'kind': 'hist', 'builds': builds, 'feats': ['hist:' + ('same-node-rebuilt' if shared else 'distinct-nodes'), f'hist:builds={nb}']}
 
 # ----------------------------------------------------------------------------------------------
 # the property
 # ----------------------------------------------------------------------------------------------
+
+HIST_NAMES = ['s', 'a', 'y', 'z', 'bid', 'len', 'tot', 'ayns']
+
+def stmts_of(code):
+    """([[kind, source]...], parses): the top-level statements of Python's parse of the stripped code text"""
+    try:
+        tree = ast.parse(code.strip())
+    except SyntaxError:
+        return [], False
+    return [['expr' if isinstance(x, ast.Expr) else 'other', ast.unparse(x)] for x in tree.body], True
 
 def loaded_names(src):
     try:
@@ -1059,6 +1075,15 @@ class C12(Prop):
             P([['a', 5]], [], [f'zp{i} = {i}' for i in range(300)], 'zp299 + a + zp0', feats=['extended-arg']),
             P([['d', {'k': 4}]], [], [], 'd.k + d["k"]'),
             P([['a', 0]], [], [], '1 // a', feats=['error:zerodiv']),
+            P([], [], [], "'a;b'", style='dq'),                                               # D23 repaired: ';' in a literal
+            P([['c', 0]], [], ['x = 1; y = 2', 'if c: x = 10; y = 20'], 'x + y'),              # D23 repaired: '; ' and one-line compound
+            P([['a', 1]], [], ['x = 1'], '[x,\n a]'),                                          # last expression on two lines
+            P([['a', 1]], [], ['x = a'], 'y = x', style='dq'),                                 # last statement is not an expression
+            {'kind': 'fstr', 'cfg': [['d', {'k': 1}]], 'derived': [], 'syms': [], 'form': 'explicit', 'scalar': "{d['k']} it's",
+             'ref_lit': 'f"{d[\'k\']} it\'s"', 'filename': None, 'rpos': 0, 'feats': ['fstr:explicit']},   # D25 repaired
+            {'kind': 'hist', 'feats': ['hist:same-node-rebuilt'], 'builds': [                 # D11 repaired
+                dict(P([['a', 10], ['z', 7]], [['s', 1], ['gd', {'fn': 'guard'}]], ['y = 1', 'if a > 5:\n    z = 1'], '[s + y, z, gd(lambda: ayns.cfg.a)]', style='dq')),
+                dict(P([['a', 0], ['z', 7], ['s', 100]], [['gd', {'fn': 'guard'}]], ['y = 1', 'if a > 5:\n    z = 1'], '[s + y, z, gd(lambda: ayns.cfg.a)]', style='dq'))]},
             {'kind': 'fstr', 'cfg': [['a', 5]], 'derived': [], 'syms': [], 'form': 'sq', 'scalar': "f'x{a}'", 'ref_lit': "f'x{a}'",
              'filename': None, 'rpos': 1, 'feats': ['fstr:sq']},
             {'kind': 'fstr', 'cfg': [['a', 5]], 'derived': [], 'syms': [], 'form': 'explicit', 'scalar': "it's {a}", 'ref_lit': 'f"it\'s {a}"',
@@ -1076,18 +1101,13 @@ class C12(Prop):
                 clean.append(gen_prog(rng, tier, pad=rng.choice([257, 300, 520]), error='zerodiv' if rng.random() < 0.1 else None))
             elif x < 0.70:
                 clean.append(gen_fstr(rng))
-            elif x < 0.85:
+            elif x < 0.83:
                 clean.append(gen_resolve(rng))
             else:
                 clean.append(gen_hist(rng))
-        # one witness per recorded finding class, at the end so that new violations are triaged first
-        known.append(gen_prog(rng, tier, known='semicolon-textual-split'))
+        # witnesses of the one recorded finding class (D26), at the end so that new violations are triaged first
         known.append(gen_resolve(rng, known='class-body-config-name'))
-        known.append(gen_fstr(rng, known='fstr-explicit-quote-in-field'))
-        known.append(gen_hist(rng, known='history-cached-namespace') if rng.random() < 0.5 else gen_hist_stale_def(rng))
-        if tier == 'thorough':
-            known.append(gen_fstr(rng, known='semicolon-textual-split'))
-            known.append(gen_prog(rng, tier, known='class-body-config-name'))
+        known.append(gen_prog(rng, tier, known='class-body-config-name'))
         return clean + known
 
     # -- implementation ----------------------------------------------------------------------
@@ -1155,8 +1175,9 @@ class C12(Prop):
         return bool(io) and 'builds' in io and io['status'] == {'exit': 0} and all(b['impl'] is not None and b['ref'] is not None for b in io['builds'])
 
     def reqs_for(self, case, io):
-        """per build: [text request (split / fstr)] and, when the run is known, [resolve, split of the node's code];
-        then one history request.  The run-dependent requests use what the real run reported (stored names, node code)."""
+        # per build: [text request (split over Python's statement list / fstr)] and, when the run is known,
+        # [resolve, split of the node's code]; then one history request.  The run-dependent requests use what the
+        # real run reported (stored names, node code).
         builds = builds_of(case)
         reqs = []
         for b in builds:
@@ -1164,17 +1185,18 @@ class C12(Prop):
             if b['kind'] == 'fstr':
                 reqs.append({'op': 'c12', 'q': 'fstr', 'explicit': b['form'] == 'explicit', 's': sv})
             else:
-                reqs.append({'op': 'c12', 'q': 'split', 'code': sv})
+                reqs.append({'op': 'c12', 'q': 'split', 'stmts': stmts_of(sv)[0]})
         if not self.complete(io):
             return reqs
         steps = []
         for i, b in enumerate(builds):
             ref, node = io['builds'][i]['ref'], io['builds'][i]['impl']['node']
+            code = node[1] if node[0] != 'parse-error' else scalar_value(b)
             reqs.append(self.resolve_req(b, ref['stored'], [f'c{j}' for j in range(len(b['names']))] if b.get('mode') == 'class' else []))
-            reqs.append({'op': 'c12', 'q': 'split', 'code': node[1]})
+            reqs.append({'op': 'c12', 'q': 'split', 'stmts': stmts_of(code)[0]})
             steps.append({'build': i, 'syms': [n for n, _ in b['syms']], 'cfg': [n for n, _ in b['cfg']] + ['r'], 'path': 'r',
-                          'code': node[1] if node[0] != 'parse-error' else scalar_value(b), 'persistent': b['kind'] != 'fstr',
-                          'defs': ref['stored'], 'fails': 'exc' in io['builds'][i]['impl'], 'names': ['s', 'a', 'y', 'z', 'bid', 'len', 'tot']})
+                          'code': code, 'stmts': len(stmts_of(code)[0]), 'persistent': b['kind'] != 'fstr',
+                          'defs': ref['stored'], 'fails': 'exc' in io['builds'][i]['impl'], 'names': HIST_NAMES})
         reqs.append({'op': 'c12', 'q': 'hist', 'builtins': BUILTIN_NAMES, 'steps': steps})
         return reqs
 
@@ -1198,7 +1220,7 @@ class C12(Prop):
             a_text, a_res = answers[i], ans2[2 * i]
             node = im['node']
             sv = scalar_value(b)
-            # ---- f-string normalisation / code split
+            # ---- f-string normalisation / what is done with the statements of the code
             if b['kind'] == 'fstr':
                 if a_text.get('code') is None:
                     if node[0] == 'FStrNode':
@@ -1211,23 +1233,31 @@ class C12(Prop):
                 if node[0] != 'EvalNode' or node[1] != sv:
                     return f'build {i}: the harness expects an EvalNode with code {sv!r}, the loader made {node}'
                 sp = a_text
-            want = ['\n'.join(sp['exec']), sp['eval']]
-            pairs = [[im['compiles'][j][0], im['compiles'][j + 1][0]] for j in range(len(im['compiles']) - 1)
-                     if im['compiles'][j][1] == 'exec' and im['compiles'][j + 1][1] == 'eval']
-            # when the exec part does not compile there is no eval text to observe
-            exec_only = bool(im['compiles']) and im['compiles'][-1][1] == 'exec' and im['compiles'][-1][0] == want[0] and 'exc' in im
-            if want not in pairs and not exec_only:
-                return f'build {i}: splitCode gives exec={want[0]!r} eval={want[1]!r}; compiled texts were {im["compiles"][-2:]}'
+            parses = stmts_of(node[1])[1]
+            trees = [c for c in im['compiles'] if isinstance(c[0], list) or c[1] == 'eval']
+            pairs = [[trees[j][0], trees[j + 1][0]] for j in range(len(trees) - 1) if trees[j][1] == 'exec' and trees[j + 1][1] == 'eval']
+            if 'error' in sp:
+                # no statement, or the last one is not an expression (or Python cannot parse the text): SyntaxError -> EvalError
+                if im.get('exc') != 'EvalError' or not im.get('cause') or im['cause'][0] not in ('SyntaxError', 'IndentationError', 'TabError'):
+                    return f'build {i}: splitStmts rejects the code (parses={parses}) but the build gave {json.dumps({k: im.get(k) for k in ("ok", "exc", "cause")})[:160]}'
+            elif ref.get('exc') in ('SyntaxError', 'IndentationError', 'TabError'):
+                pass         # parsed, but rejected by the compiler (e.g. `return` at top level): Python's business, outside the grammar
+            else:
+                want = [sp['exec'], sp['eval']]
+                if want not in pairs:
+                    return f'build {i}: splitStmts gives exec={want[0]!r} eval={want[1]!r}; compiled trees were {trees[-2:]}'
             fn = b.get('filename') or '<unknown>'
             if any(c[2] != fn for c in im['compiles']):
                 return f'build {i}: code compiled under file name {[c[2] for c in im["compiles"]]}, expected {fn!r}'
-            # ---- publication of a module (len(lines) > 1, persistent, no error)
+            # ---- publication of a module (more than one statement, persistent, no error)
             key = module_key(b) if b['kind'] != 'fstr' else None
             if key is not None:
                 pub_model = hist['steps'][i]['published']
                 pub_impl = key in im['registry']
                 if pub_model != pub_impl:
                     return f'build {i}: the registry machine says published={pub_model}, sys.modules says {pub_impl} ({im["registry"]})'
+                if 'error' not in sp and 'exc' not in im and hist['steps'][i]['publishes'] != sp['multi']:
+                    return f'build {i}: publishes={hist["steps"][i]["publishes"]} but multiStmt={sp["multi"]}'
             # ---- name resolution: what reached __missing__
             names = second[2 * i]['names']
             defs = set(ref['stored'])
@@ -1235,7 +1265,7 @@ class C12(Prop):
                 mech = a_res['mech'][names.index(n)][0]
                 if n not in ('ayns', '__name__', '__file__') and mech != cls:
                     return f'build {i}: Globals.lookup({n}) = {mech} but resolve = {cls}'
-                if n in defs or len(builds) > 1:
+                if n in defs:
                     continue
                 seen = {k for m, k in im['missing'] if m == n}
                 if cls in ('sym',) and seen:
@@ -1260,39 +1290,31 @@ class C12(Prop):
         if case['kind'] == 'hist':
             for i, b in enumerate(builds):
                 im = io['builds'][i]['impl']
+                if hist['steps'][i]['lookups'] != hist['steps'][i]['fresh']:
+                    return f'build {i}: the registry machine itself is not history independent: {hist["steps"][i]}'
                 if 'ok' not in im:
                     continue
                 env = {}
                 for n, (cls, prov) in zip(steps[i]['names'], hist['steps'][i]['lookups']):
                     if cls == 'sym':
-                        env[n] = dict(map(tuple, builds[prov]['syms']))[n] if n in dict(map(tuple, builds[prov]['syms'])) else '?'
+                        env[n] = dict(map(tuple, builds[prov]['syms'])).get(n, '?')
                     elif cls == 'cfg':
                         env[n] = dict(map(tuple, builds[prov]['cfg'])).get(n, '?')
-                    elif cls == 'def':
-                        env[n] = ('def', prov)
+                    elif cls == 'injected' and n == 'ayns':
+                        env[n] = RefBunch({'cfg': RefBunch((k, to_ref(v)) for k, v in builds[prov]['cfg'])})
                     elif cls == 'builtin':
                         env[n] = getattr(_bi, n)
-                    else:
-                        env[n] = 'nameerror'
-                pred = self.predict_hist(b, env, builds, i)
+                    # definitions are recomputed by running the code on this environment; a NameError stays one
+                pred = self.predict_hist(b, env)
                 if pred is not None and pred != im['ok']:
                     return (f'build {i}: the registry machine predicts {json.dumps(pred)[:140]} (lookups {hist["steps"][i]["lookups"]}), '
                             f'the real build gave {json.dumps(im["ok"])[:140]}')
         return None
 
-    def predict_hist(self, b, env, builds, i):
-        """value of a history program when every free name has the value the machine assigns to it;
-        definitions are recomputed by running the code natively on that environment"""
-        ns = {}
-        for n, v in env.items():
-            if v == 'nameerror' or (isinstance(v, tuple) and v[0] == 'def'):
-                continue
-            ns[n] = v
+    def predict_hist(self, b, env):
+        # value of a history program when every free name has the value the machine assigns to it
+        ns = dict(env)
         ns['gd'] = _guard
-        # a stale definition (made by an earlier build, not by this run) keeps the value that build gave it
-        for n, v in env.items():
-            if isinstance(v, tuple) and v[0] == 'def' and v[1] != i:
-                ns[n] = self._def_value(n, builds[v[1]], v[1])
         ex, ev = ref_parts(b)
         try:
             if ex:
@@ -1300,15 +1322,6 @@ class C12(Prop):
             return canon(eval(ev, ns))
         except Exception:  # noqa
             return None
-
-    def _def_value(self, n, b, k):
-        ns = {m: v for m, v in b['cfg']}
-        ns['gd'] = _guard
-        try:
-            exec(ref_parts(b)[0], ns)
-            return ns.get(n, 'nameerror')
-        except Exception:  # noqa
-            return 'nameerror'
 
     # -- bookkeeping -------------------------------------------------------------------------
     def nontrivial(self, case, io):
@@ -1389,20 +1402,22 @@ class C12(Prop):
                         out.append(dict(case, final=seg))
             except SyntaxError:
                 pass
-            if case.get('seps') and any(s != '\n' for s in case['seps']) and not case.get('known'):
+            if case.get('seps') and any(s != '\n' for s in case['seps']):
                 out.append(dict(case, seps=[]))
             if case.get('style') == 'block':
                 out.append(dict(case, style='dq'))
         if case['kind'] == 'fstr':
-            s = case['scalar']
-            body = s if case['form'] == 'explicit' else s[2:-1]
+            sc0 = case['scalar']
+            body = sc0 if case['form'] == 'explicit' else sc0[2:-1]
             for m in re.finditer(r'\{[^{}]*\}|[^{}]+', body):
                 nb = body[:m.start()] + body[m.end():]
                 if nb and nb != body:
-                    q = s[1] if case['form'] != 'explicit' else None
-                    sc = nb if q is None else 'f' + q + nb + q
-                    rl = sc if q is not None else 'f' + next(x for x in ["'", '"', "'''", '"""'] if x not in nb) + nb + next(x for x in ["'", '"', "'''", '"""'] if x not in nb)
-                    out.append(dict(case, scalar=sc, ref_lit=rl))
+                    if case['form'] == 'explicit':
+                        sc, rl = nb, ref_literal(nb)
+                    else:
+                        sc = rl = 'f' + sc0[1] + nb + sc0[1]
+                    if rl is not None:
+                        out.append(dict(case, scalar=sc, ref_lit=rl))
         for i, (n, _) in enumerate(case['cfg']):
             if not used(case, n):
                 out.append(dict(case, cfg=case['cfg'][:i] + case['cfg'][i + 1:], rpos=0))
